@@ -108,9 +108,11 @@ def NoStructArrays (env : Env) : Prop :=
   ∀ s ifs, env.find s = some ifs → ∀ g ∈ ifs, isArrStructTy g.ty = false
 
 theorem resetMember_fuel (env : Env) (F G : Nat) (f : Field) (v : Val)
-    (hna : isArrStructTy f.ty = false)
     (ih : ∀ name ifs inner, f.ty = .struct name → env.find name = some ifs → v = .struct inner →
-      resetDefault env F ifs inner = resetDefault env G ifs inner) :
+      resetDefault env F ifs inner = resetDefault env G ifs inner)
+    (iha : ∀ n s ifs, f.ty = .arr n (.struct s) → env.find s = some ifs →
+      resetDefault env F ifs (ifs.map fun g => zeroOf env g.ty)
+        = resetDefault env G ifs (ifs.map fun g => zeroOf env g.ty)) :
     resetMember env F f v = resetMember env G f v := by
   unfold resetMember
   cases f.dflt with
@@ -124,7 +126,10 @@ theorem resetMember_fuel (env : Env) (F G : Nat) (f : Field) (v : Val)
         | none => rfl
         | some ifs => simp only; rw [ih name ifs inner hn hfind rfl]
       · rfl
-    · next hty => rw [hty] at hna; simp [isArrStructTy] at hna
+    · next n s hty =>
+      cases hfind : env.find s with
+      | none => rfl
+      | some ifs => simp only; rw [iha n s ifs hty hfind]
     · rfl
 
 /-- for a schema without arrays of structs, `ResetDefault` is independent of the model fuel once
@@ -148,11 +153,63 @@ theorem resetDefault_fuel (env : Env) (hna : NoStructArrays env) (F : Nat) :
         rw [resetDefault_cons, resetDefault_cons,
           ih vs (fun g hg => hfs g (by simp [hg])) (by omega) (by omega)]
         congr 1
-        apply resetMember_fuel env F G f v (hfs f (by simp))
-        intro name ifs inner _ hfind hv
-        subst hv
-        simp only [valDepth] at h h'
-        exact ihF G ifs inner (hna name ifs hfind) (by omega) (by omega)
+        apply resetMember_fuel env F G f v
+        · intro name ifs inner _ hfind hv
+          subst hv
+          simp only [valDepth] at h h'
+          exact ihF G ifs inner (hna name ifs hfind) (by omega) (by omega)
+        · intro n s ifs hty _
+          have := hfs f (by simp)
+          rw [hty] at this; simp [isArrStructTy] at this
+
+/-! ### … and, for every acyclic schema, once it exceeds the rank of the struct -/
+
+/-- the type holds a struct `s` by value: as a member, or as the element of a fixed-size array -/
+def StructRef (ty : Ty) (s : String) : Prop := ty = .struct s ∨ ∃ n, ty = .arr n (.struct s)
+
+/-- By-value struct nesting is acyclic: `rk` ranks the struct names (ranks `≤ env.length`) so that
+    a struct holds by value — as a member or as the element of a fixed-size array — only structs
+    of smaller rank.  (Vectors and maps of structs are not restricted: recursion through them is
+    fine.)  Go rejects every schema excluded here at compile time (`invalid recursive type`): the
+    struct tars2go emits for it would contain itself. -/
+def EnvAcyclic (env : Env) (rk : String → Nat) : Prop :=
+  ∀ s ifs, env.find s = some ifs → rk s ≤ env.length ∧
+    ∀ g ∈ ifs, ∀ s' ifs', StructRef g.ty s' → env.find s' = some ifs' → rk s' < rk s
+
+/-- for an acyclic schema `ResetDefault` is independent of the model fuel once it exceeds the rank
+    of the structs the member list holds by value — whatever the target holds -/
+theorem resetDefault_acyclic (env : Env) (rk : String → Nat) (hac : EnvAcyclic env rk) (F : Nat) :
+    ∀ (k F' : Nat) (fs : List Field) (vs : List Val),
+      (∀ g ∈ fs, ∀ s' ifs', StructRef g.ty s' → env.find s' = some ifs' → rk s' < k) →
+      k + 1 ≤ F → k + 1 ≤ F' → resetDefault env F fs vs = resetDefault env F' fs vs := by
+  induction F with
+  | zero => intro k F' fs vs _ h; omega
+  | succ F ihF =>
+    intro k F' fs vs hfs h h'
+    obtain ⟨G, rfl⟩ : ∃ G, F' = G + 1 := ⟨F' - 1, by omega⟩
+    induction fs generalizing vs with
+    | nil => rw [resetDefault_nil_left, resetDefault_nil_left]
+    | cons f fs ih =>
+      cases vs with
+      | nil => rw [resetDefault_nil_right, resetDefault_nil_right]
+      | cons v vs =>
+        rw [resetDefault_cons, resetDefault_cons, ih vs (fun g hg => hfs g (by simp [hg]))]
+        congr 1
+        apply resetMember_fuel env F G f v
+        · intro name ifs inner hty hfind _
+          have hlt := hfs f (by simp) name ifs (.inl hty) hfind
+          exact ihF (rk name) G ifs inner (hac name ifs hfind).2 (by omega) (by omega)
+        · intro n s ifs hty hfind
+          have hlt := hfs f (by simp) s ifs (.inr ⟨n, hty⟩) hfind
+          exact ihF (rk s) G ifs _ (hac s ifs hfind).2 (by omega) (by omega)
+
+/-- `ResetDefault` of a struct of an acyclic schema: any two fuels above `env.length` agree -/
+theorem resetDefault_stable_acyclic (env : Env) (rk : String → Nat) (hac : EnvAcyclic env rk)
+    (S : String) (fs : List Field) (hfind : env.find S = some fs) (vs : List Val) (F F' : Nat)
+    (hF : env.length + 1 ≤ F) (hF' : env.length + 1 ≤ F') :
+    resetDefault env F fs vs = resetDefault env F' fs vs := by
+  obtain ⟨hle, hrefs⟩ := hac S fs hfind
+  exact resetDefault_acyclic env rk hac F (rk S) F' fs vs hrefs (by omega) (by omega)
 
 /-! ### the reader state at each member -/
 
